@@ -760,3 +760,56 @@ def emptiness(flow, node, container):
         elif l == ln and r == "1" and op == "<":
             verdict = "empty"
     return verdict
+
+
+# ----------------------------------------------------------------------------
+# same-name construction
+# ----------------------------------------------------------------------------
+
+def same_name_constructor(ck, rid, ci, exceptions=()):
+    """a data-holder constructor stores each parameter under its own name: the value stored into self.X / self._X derives from the
+    parameter X and from no *other* parameter that has an attribute of its own (self.arrival = departure, self.min_rates =
+    np.array(max_rates) are cross-wirings), except on the edge where X was not given (`X is None`: a documented default).  Every
+    parameter that has a like-named attribute is stored on every normally ending path."""
+    repo = ck.repo
+    init = repo.method(ci, "__init__", optional=True)
+    if init is None or init.cls is not ci:
+        return 0
+    fl = flow_of(init)
+    params = [p for p in init.params[1:]]
+    writes = [(n, k, p, t) for n, k, p, t in state_writes(fl) if k == "assign" and p.count(".") == 1]
+    attrs = {p.split(".")[1] for _, _, p, _ in writes}
+    owned = {p for p in params if p in attrs or ("_" + p) in attrs}
+    n_checked = 0
+    for n, k, p, t in writes:
+        a = p.split(".")[1]
+        own = a if a in params else (a[1:] if a.startswith("_") and a[1:] in params else None)
+        if own is None or (ci.name, a) in exceptions:
+            continue
+        v = gexpand(fl, n.stmt.value, n)
+        names = {x.id for x in ast.walk(v) if isinstance(x, ast.Name)}
+        others = (names & owned) - {own}
+        defaulted = any((c := cmp_norm(x_, tr)) and c[1] == "is" and canon(c[0]) == own and canon(c[2]) == "None"
+                        for a_, tr in facts_at(fl, n) for x_ in (a_, flow_expand_atom(fl, a_, n)))
+        n_checked += 1
+        if own in names and not others:
+            ck.holds(rid, init, n.stmt, f"parameter {own} stored as {a}")
+        elif defaulted and own not in names:
+            ck.holds(rid, init, n.stmt, f"default for a missing {own}")
+        else:
+            ck.violation(rid, init, n.stmt, f"{ci.name}.{a} is built from {sorted(others) or sorted(names & set(params)) or 'no parameter'} instead of its own parameter "
+                         f"`{own}`: the object reports another quantity under this name", sink=f"{ci.name}.{a}:source")
+    # every owned parameter is stored on every normal path
+    for own in sorted(owned):
+        stores = [n for n, k, p, t in writes if p.split(".")[1] in (own, "_" + own)]
+        if stores and fl.cfg.exit in fl.cfg.reach(fl.cfg.entry, avoid=set(stores)):
+            ck.violation(rid, init, stores[0].stmt, f"a path through {ci.name}.__init__ ends without storing `{own}`: the attribute is missing on the new object",
+                         sink=f"{ci.name}.{own}:stored-every-path")
+    return n_checked
+
+
+def flow_expand_atom(fl, a, node):
+    try:
+        return fl.expand(a, node)
+    except Exception:
+        return a
